@@ -757,7 +757,7 @@ impl btdht::SocketTrait for SimSocket {
             let ord = n.link_ord.get(&(self.addr, *target)).copied().unwrap_or(0);
             let y = n.cfg.yield_ppm > 0 && n.roll(&self.addr, target, ord, 21) % PPM < n.cfg.yield_ppm as u64;
             if y {
-                n.bump("sched_yield_send");
+                n.bump("fault_sched_yield_send");
             }
             y
         };
@@ -797,7 +797,7 @@ impl btdht::SocketTrait for SimSocket {
         if target.port() == 0 {
             // what the operating system does with a destination port of 0 (a contact can be
             // advertised with any port by whoever names it)
-            self.net.lock().bump("send_to_port_0_einval");
+            self.net.lock().bump("fault_send_to_port_0_einval");
             return Err(io::Error::from_raw_os_error(22));
         }
         let (r, check) = {
@@ -857,7 +857,7 @@ impl btdht::SocketTrait for SimSocket {
             };
             let y = ppm > 0 && n.roll(&self.addr, &self.addr, calls, 22) % PPM < ppm as u64;
             if y {
-                n.bump("sched_yield_recv");
+                n.bump("fault_sched_yield_recv");
             }
             let eppm = n.cfg.recv_err_ppm;
             if calls > 0 && eppm > 0 && n.roll(&self.addr, &self.addr, calls, 23) % PPM < eppm as u64 {
